@@ -141,8 +141,9 @@ def precalls(ref):
     P["dssp"] = lambda t: md.compute_dssp(t, simplified=True)
     P["baker_hubbard(per frame)"] = lambda t: md.baker_hubbard(t, freq=0.0, exclude_water=False)
     P["wernet_nilsson"] = lambda t: md.wernet_nilsson(t, exclude_water=False)
-    P["rmsd(atom_indices)"] = lambda t: md.rmsd(t, t, 0)
-    P["superpose(atom_indices)"] = lambda t: md.Trajectory(t.xyz.copy(), t.topology).superpose(t, 0)
+    cp = lambda t: md.Trajectory(t.xyz.copy(), t.topology)       # md.rmsd centres its arguments in place (documented)
+    P["rmsd(atom_indices)"] = lambda t: md.rmsd(cp(t), cp(t), 0)
+    P["superpose(atom_indices)"] = lambda t: cp(t).superpose(cp(t), 0)
     return P
 
 
